@@ -229,6 +229,9 @@ impl Sim for StoreSim {
             // C02: in a fifth of the runs the store can hold exactly as many records as the plan has keys, so a
             // restart can find it filled to capacity
             ("C02", _) if rng.chance(1, 5) => (n_keys, 0),
+            // C01 / C02: in an eighth of the runs the store is one or two records too small for the plan's keys, so
+            // puts prune (a pruned key is a removed key: not readable, not listed, and it stays removed over a restart)
+            ("C01", _) | ("C02", _) if n_keys >= 2 && rng.chance(1, 8) => ((n_keys - 1 - rng.usize_below(2).min(n_keys - 2)).max(1), 0),
             _ => (16 * 1024, 0),
         };
         let probe_prefixes = match (kind, ctx.tier) {
